@@ -13,6 +13,7 @@ import (
 	"fmt"
 	"io/fs"
 	"os"
+	"os/signal"
 	"path/filepath"
 	"runtime"
 	"sort"
@@ -346,6 +347,14 @@ func runChild(jobPath string) {
 		os.Exit(3)
 	}
 	syscall.Umask(0o022)
+	// A process started with SIGINT ignored (a background job of a non-interactive shell, nohup, some
+	// CI runners) passes that on to everything it starts, and the Go runtime keeps it ignored: the
+	// background commands of the scripts would then never die on testscript's os.Interrupt and run()
+	// would wait for them for ever.  Installing a handler makes the children start with the default
+	// disposition again (handlers are not inherited across exec); the signal itself stays without effect here.
+	if signal.Ignored(os.Interrupt) {
+		signal.Notify(make(chan os.Signal, 1), os.Interrupt)
+	}
 	if job.Batch.Procs > 0 {
 		runtime.GOMAXPROCS(job.Batch.Procs)
 	}
